@@ -3,6 +3,8 @@
 mod enc;
 mod irenc;
 mod pcodegen;
+mod penc;
+mod pblockgen;
 mod elfgen;
 mod cli;
 mod par;
